@@ -193,4 +193,51 @@ MechJoin(c) ==
         sc == [i \in (1..NIn(c)) \ Tables(c) |-> c.ins[i].v]
     IN  IF AllScalar(c) THEN (<<>> :> sc) ELSE With(t, sc)
 JoinAsMap(c) == [k \in JoinKeys(c) |-> Args(c, k)]
+
+\* ---------------------------------------------------------------------------------------------
+\* The same mechanism on the key CELLS (see "Spelling of keys"): a table is a set of rows
+\*      [k |-> key denoted, s |-> the spelling the row carries, v |-> input index -> value]
+\* and the product (*) and the quotient (/) are told when two cells match.  The library matches cells that
+\* rank equal ("ByRank"); a lookup of the cells in a hash set / dict matches NaN cells only when they are one
+\* object, and dates only when they are of one type ("ByObject").  With "ByRank" for both operations the rows
+\* are the law's - one per key (CellsJoinIsLaw in MC_Perdictable); with a quotient "ByObject" next to a
+\* product "ByRank" a key that two tables spell differently is joined AND reported as lacking
+\* (ObjectLookupIsLaw fails: configuration `identity`) - which is why the spellings are enumerated.
+\* ---------------------------------------------------------------------------------------------
+Match(how, a, b) == a.k = b.k /\ (how = "ByObject" => a.s = b.s)        \* how = "ByRank" | "ByObject"
+CellRows(c, i) == {[k |-> k, s |-> c.spell[i][k], v |-> (i :> c.ins[i].map[k])] : k \in Dom(c, i)}
+MulC(T, U, how) == {[k |-> p[1].k, s |-> p[1].s, v |-> p[1].v @@ p[2].v] : p \in {p \in T \X U : Match(how, p[1], p[2])}}
+DivC(T, U, how) == {a \in T : \A b \in U : ~Match(how, a, b)}
+WithC(T, d)     == {[a EXCEPT !.v = @ @@ d] : a \in T}
+JoinDefC(p, q, mul, div) ==
+    IF ~p.some THEN [q EXCEPT !.d = p.d @@ q.d]
+    ELSE IF ~q.some THEN [p EXCEPT !.d = p.d @@ q.d]
+    ELSE Some(MulC(p.t, q.t, mul)
+              \cup (IF p.d = <<>> THEN {} ELSE WithC(DivC(q.t, p.t, div), p.d))
+              \cup (IF q.d = <<>> THEN {} ELSE WithC(DivC(p.t, q.t, div), q.d)), p.d @@ q.d)
+RECURSIVE MulAllC(_, _, _), OuterAllC(_, _, _, _)
+MulAllC(c, is, mul) == IF Len(is) = 1 THEN CellRows(c, is[1]) ELSE MulC(MulAllC(c, Front(is), mul), CellRows(c, Last(is)), mul)
+OuterAllC(c, is, mul, div) ==
+    LET p(i) == Some(CellRows(c, i), (i :> c.defs[i][1])) IN
+    IF Len(is) = 1 THEN p(is[1]) ELSE JoinDefC(OuterAllC(c, Front(is), mul, div), p(Last(is)), mul, div)
+\* the rows of join(inputs, on, defaults) for table inputs (the scalars broadcast): a SET of rows, two rows may carry one key
+MechCells(c, mul, div) ==
+    LET st == Ascending(Strict(c))
+        df == Ascending(Tables(c) \ Strict(c))
+        inner == IF st = <<>> THEN NoTable ELSE Some(MulAllC(c, st, mul), <<>>)
+        outer == IF df = <<>> THEN NoTable ELSE OuterAllC(c, df, mul, div)
+        sc == [i \in (1..NIn(c)) \ Tables(c) |-> c.ins[i].v]
+    IN  WithC(JoinDefC(inner, outer, mul, div).t, sc)
+\* perdictable hands the previously computed values and the expiries to that join as two more inputs with default None
+\* (outer-joined: inside the quantifier's domain they neither add a key nor remove one, see CacheInsideJoin)
+AsJoin(c) ==
+    LET d == IF c.data = <<>> THEN [kind |-> "scalar", v |-> None, map |-> <<>>] ELSE [kind |-> "keyed", v |-> None, map |-> c.data[1]]
+        e == IF ExpiryKind(c) = "keyed" THEN [kind |-> "keyed", v |-> None, map |-> c.expiry[1]]
+             ELSE [kind |-> "scalar", v |-> IF ExpiryKind(c) = "scalar" THEN c.expiry[2] ELSE None, map |-> <<>>]
+    IN  [ins |-> c.ins \o <<d, e>>, defs |-> c.defs \o <<<<None>>, <<None>>>>, data |-> <<>>, expiry |-> <<>>, today |-> c.today,
+         spell |-> c.spell \o <<<<>>, <<>>>>]
+\* one row per key of the join, with that key's values, carrying a spelling that some table input supplied for the key
+CellsAreLaw(c, R) == /\ {r.k : r \in R} = JoinKeys(c)
+                     /\ Cardinality(R) = Cardinality(JoinKeys(c))
+                     /\ \A r \in R : r.v = Args(c, r.k) /\ \E i \in Tables(c) : r.k \in Dom(c, i) /\ r.s = c.spell[i][r.k]
 =============================================================================
